@@ -401,6 +401,16 @@ def statusline(R, RID='C19.gate'):
                         if r is not None:
                             return r
         return None
+    # a ValueError in that try means "the code is not a number" - nothing else that can raise ValueError (unpacking a
+    # fixed number of tokens ...) may share the handler: `HTTP/1.1 200` without a reason phrase is still status 200
+    for tr in own_nodes(f.node):
+        if isinstance(tr, ast.Try) and any(x is n.ast for b in tr.body for x in ast.walk(b)):
+            unp = [b for b in tr.body for x in ast.walk(b) if isinstance(x, ast.Assign) and any(
+                isinstance(t, (ast.Tuple, ast.List)) for t in x.targets) and not isinstance(x.value, (ast.Tuple, ast.List))]
+            R.ob(RID, 'only the number conversion shares the ValueError handler', not unp,
+                 'the status line tokens are unpacked inside the try whose ValueError handler means "status code is not a '
+                 'number": a status line with fewer tokens (no reason phrase) is parsed as status None and a 200 answer is '
+                 'refused', func=f, node=(unp[0] if unp else tr), construct='token unpack under the ValueError handler')
     arg = n.ast.value.args[0] if n.ast.value.args else None
     bad = decoded(n, arg) if arg is not None else None
     R.ob(RID, 'status code parsed from the raw bytes', U(n.ast.value.func) == 'int' and arg is not None and bad is None,
